@@ -594,6 +594,10 @@ func c15Cow(p *Prog, r *Report, prefix string) {
 					if callee := x.Call.StaticCallee(); callee != nil && p.InRepo(callee) {
 						for _, f := range withCallees(p, callee, 1) {
 							eachInstr(f, func(in2 ssa.Instruction) {
+								// the arm may be a helper of its own (addHost(evt)) that also publishes
+								if sc, ok := in2.(*ssa.Call); ok && callIsMethod(sc, "sync/atomic", "Value", "Store") && recvNamed(f) == lb {
+									publishes = true
+								}
 								if bo, ok := in2.(*ssa.BinOp); ok && (bo.Op == token.EQL || bo.Op == token.NEQ) {
 									xc, xok := bo.X.(*ssa.Call)
 									yc, yok := bo.Y.(*ssa.Call)
